@@ -43,7 +43,9 @@ import (
 )
 
 type memTr struct {
-	t         *tr
+	info      *types.Info
+	fset      *token.FileSet
+	structs   bool              // struct mode (tinycpm): pointer receivers to structs, effects (writer / logger calls) collected in `fx`
 	recv      string            // receiver variable
 	recvKind  string            // "slice" | "map"
 	created   map[string]bool   // locals holding fresh objects created by composite literals
@@ -54,7 +56,7 @@ type memTr struct {
 }
 
 func (m *memTr) refuse(n ast.Node, msg string) {
-	panic(refusal(fmt.Sprintf("memio translator: %s: %s", m.t.fset.Position(n.Pos()), msg)))
+	panic(refusal(fmt.Sprintf("memio translator: %s: %s", m.fset.Position(n.Pos()), msg)))
 }
 
 func (m *memTr) kindOf(ty types.Type) string {
@@ -80,9 +82,20 @@ func (m *memTr) kindOf(ty types.Type) string {
 		case types.Bool, types.UntypedBool:
 			return "bool"
 		}
+	case *types.Array:
+		if b, ok := u.Elem().Underlying().(*types.Basic); ok && b.Kind() == types.Uint8 {
+			return "array"
+		}
 	case *types.Interface:
 		if u.Empty() {
 			return "dyn"
+		}
+		if nt, ok := ty.(*types.Named); ok && nt.Obj().Pkg() != nil && nt.Obj().Pkg().Path() == "io" && nt.Obj().Name() == "Writer" {
+			return "writer"
+		}
+	case *types.Pointer:
+		if nt, ok := u.Elem().(*types.Named); ok && nt.Obj().Pkg() != nil && nt.Obj().Pkg().Path() == "log" && nt.Obj().Name() == "Logger" {
+			return "logger"
 		}
 	}
 	return ""
@@ -104,19 +117,23 @@ func (m *memTr) leanType(n ast.Node, ty types.Type) string {
 		return "Bool"
 	case "dyn":
 		return "Dyn"
+	case "array":
+		return "List U8"
+	case "writer", "logger":
+		return "Nat"
 	}
 	m.refuse(n, "unsupported type "+ty.String())
 	return ""
 }
 
 func (m *memTr) typeOf(e ast.Expr) types.Type {
-	tv, ok := m.t.info.Types[e]
+	tv, ok := m.info.Types[e]
 	if !ok {
 		if id, ok := e.(*ast.Ident); ok {
-			if o := m.t.info.Uses[id]; o != nil {
+			if o := m.info.Uses[id]; o != nil {
 				return o.Type()
 			}
-			if o := m.t.info.Defs[id]; o != nil {
+			if o := m.info.Defs[id]; o != nil {
 				return o.Type()
 			}
 		}
@@ -134,7 +151,7 @@ func mident(s string) string {
 
 // pure expression -> Lean term; effects (slice reads) are hoisted into `pre` as monadic lets
 func (m *memTr) expr(e ast.Expr, pre *[]string) string {
-	if tv, ok := m.t.info.Types[e]; ok && tv.Value != nil {
+	if tv, ok := m.info.Types[e]; ok && tv.Value != nil {
 		// constant
 		switch m.kindOf(tv.Type) {
 		case "u8":
@@ -156,6 +173,10 @@ func (m *memTr) expr(e ast.Expr, pre *[]string) string {
 			m.refuse(e, "nil literal")
 		}
 		return mident(x.Name)
+	case *ast.SelectorExpr:
+		if id, ok := x.X.(*ast.Ident); ok && m.structs && id.Name == m.recv {
+			return mident(id.Name) + "." + mident(x.Sel.Name)
+		}
 	case *ast.UnaryExpr:
 		if x.Op == token.NOT {
 			return "(!" + m.expr(x.X, pre) + ")"
@@ -190,7 +211,7 @@ func (m *memTr) expr(e ast.Expr, pre *[]string) string {
 		}
 	case *ast.IndexExpr:
 		switch m.kindOf(m.typeOf(x.X)) {
-		case "slice":
+		case "slice", "array":
 			s := m.expr(x.X, pre)
 			i := m.indexNat(x.Index, pre)
 			m.tmp++
@@ -202,7 +223,7 @@ func (m *memTr) expr(e ast.Expr, pre *[]string) string {
 		}
 	case *ast.CallExpr:
 		// conversions
-		if tv, ok := m.t.info.Types[x.Fun]; ok && tv.IsType() && len(x.Args) == 1 {
+		if tv, ok := m.info.Types[x.Fun]; ok && tv.IsType() && len(x.Args) == 1 {
 			to, from := m.kindOf(tv.Type), m.kindOf(m.typeOf(x.Args[0]))
 			a := m.expr(x.Args[0], pre)
 			switch {
@@ -218,7 +239,7 @@ func (m *memTr) expr(e ast.Expr, pre *[]string) string {
 			m.refuse(e, "unsupported conversion")
 		}
 		if id, ok := x.Fun.(*ast.Ident); ok {
-			if _, isB := m.t.info.Uses[id].(*types.Builtin); isB && id.Name == "len" && len(x.Args) == 1 {
+			if _, isB := m.info.Uses[id].(*types.Builtin); isB && id.Name == "len" && len(x.Args) == 1 {
 				switch m.kindOf(m.typeOf(x.Args[0])) {
 				case "slice":
 					return fmt.Sprintf("(goLen %s)", m.expr(x.Args[0], pre))
@@ -228,7 +249,7 @@ func (m *memTr) expr(e ast.Expr, pre *[]string) string {
 			}
 		}
 		if se, ok := x.Fun.(*ast.SelectorExpr); ok {
-			if fn, ok := m.t.info.Uses[se.Sel].(*types.Func); ok && fn.Pkg() != nil && fn.Pkg().Path() == "reflect" && fn.Name() == "DeepEqual" && len(x.Args) == 2 {
+			if fn, ok := m.info.Uses[se.Sel].(*types.Func); ok && fn.Pkg() != nil && fn.Pkg().Path() == "reflect" && fn.Name() == "DeepEqual" && len(x.Args) == 2 {
 				if m.kindOf(m.typeOf(x.Args[0])) == "map" && m.kindOf(m.typeOf(x.Args[1])) == "map" {
 					return fmt.Sprintf("(goDeepEqualMap %s %s)", m.expr(x.Args[0], pre), m.expr(x.Args[1], pre))
 				}
@@ -311,7 +332,13 @@ func tuple(vs []string) string {
 }
 
 func (m *memTr) finish(val string) string {
-	// the function's answer: receiver object afterwards (+ result)
+	// the function's answer: receiver object afterwards (+ effects in struct mode) (+ result)
+	if m.structs {
+		if m.retType == "" {
+			return fmt.Sprintf("pure (%s, fx)", mident(m.recv))
+		}
+		return fmt.Sprintf("pure (%s, fx, %s)", mident(m.recv), val)
+	}
 	if m.retType == "" {
 		return fmt.Sprintf("pure %s", mident(m.recv))
 	}
@@ -386,11 +413,39 @@ func (m *memTr) block(stmts []ast.Stmt, ind string, tail string, inLoop bool, lo
 			if !ok {
 				m.refuse(s, "expression statement")
 			}
+			if se, ok := call.Fun.(*ast.SelectorExpr); ok && m.structs {
+				// a call on a field of the receiver: a logger's Printf-family = one warning; a writer's Write(b) = b reaches the writer
+				if f, ok := m.recvField(se.X); ok {
+					var pre []string
+					switch m.kindOf(m.typeOf(se.X)) {
+					case "logger":
+						if se.Sel.Name != "Printf" && se.Sel.Name != "Println" && se.Sel.Name != "Print" {
+							m.refuse(s, "logger method "+se.Sel.Name)
+						}
+						for _, a := range call.Args[1:] {
+							m.expr(a, &pre) // arguments must be pure expressions of the fragment
+						}
+						if len(pre) > 0 {
+							m.refuse(s, "logger argument with effects")
+						}
+						emit(nil, fmt.Sprintf("let fx := fx ++ [Effect.warn %s.%s]", mident(m.recv), mident(f)))
+						continue
+					case "writer":
+						if se.Sel.Name != "Write" || len(call.Args) != 1 || m.kindOf(m.typeOf(call.Args[0])) != "slice" {
+							m.refuse(s, "writer call other than Write(b)")
+						}
+						b := m.expr(call.Args[0], &pre)
+						emit(pre, fmt.Sprintf("let fx := fx ++ [Effect.write %s.%s %s]", mident(m.recv), mident(f), b))
+						continue
+					}
+				}
+				m.refuse(s, "method call statement")
+			}
 			fid, ok := call.Fun.(*ast.Ident)
 			if !ok {
 				m.refuse(s, "call statement")
 			}
-			if _, isB := m.t.info.Uses[fid].(*types.Builtin); !isB {
+			if _, isB := m.info.Uses[fid].(*types.Builtin); !isB {
 				m.refuse(s, "call of a non-builtin")
 			}
 			var pre []string
@@ -399,6 +454,16 @@ func (m *memTr) block(stmts []ast.Stmt, ind string, tail string, inLoop bool, lo
 				se, ok := call.Args[0].(*ast.SliceExpr)
 				if !ok || se.Slice3 || se.Low == nil || se.High == nil {
 					m.refuse(s, "copy whose destination is not d[lo:hi]")
+				}
+				if f, ok := m.recvField(se.X); ok && m.kindOf(m.typeOf(se.X)) == "array" && m.kindOf(m.typeOf(call.Args[1])) == "slice" {
+					if m.kindOf(m.typeOf(se.Low)) != "int" || m.kindOf(m.typeOf(se.High)) != "int" {
+						m.refuse(s, "slice bounds that are not int")
+					}
+					lo, hi, src := m.expr(se.Low, &pre), m.expr(se.High, &pre), m.expr(call.Args[1], &pre)
+					m.tmp++
+					emit(pre, fmt.Sprintf("let t%d ← goCopy %s.%s %s %s %s", m.tmp, mident(m.recv), mident(f), lo, hi, src))
+					emit(nil, fmt.Sprintf("let %s := { %s with %s := t%d }", mident(m.recv), mident(m.recv), mident(f), m.tmp))
+					continue
 				}
 				did, ok := se.X.(*ast.Ident)
 				if !ok || m.kindOf(m.typeOf(did)) != "slice" || m.kindOf(m.typeOf(call.Args[1])) != "slice" {
@@ -429,6 +494,33 @@ func (m *memTr) block(stmts []ast.Stmt, ind string, tail string, inLoop bool, lo
 		case *ast.AssignStmt:
 			var pre []string
 			switch {
+			case len(x.Lhs) == 1 && len(x.Rhs) == 1 && x.Tok == token.ASSIGN && m.structs && func() bool {
+				if ie, ok := x.Lhs[0].(*ast.IndexExpr); ok {
+					_, ok := m.recvField(ie.X)
+					return ok
+				}
+				_, ok := m.recvField(x.Lhs[0])
+				return ok
+			}():
+				if ie, ok := x.Lhs[0].(*ast.IndexExpr); ok {
+					f, _ := m.recvField(ie.X)
+					if m.kindOf(m.typeOf(ie.X)) != "array" {
+						m.refuse(s, "element assignment on a field that is not a byte array")
+					}
+					v := m.expr(x.Rhs[0], &pre)
+					i := m.indexNat(ie.Index, &pre)
+					m.tmp++
+					emit(pre, fmt.Sprintf("let t%d ← goAssign %s.%s %s %s", m.tmp, mident(m.recv), mident(f), i, v))
+					emit(nil, fmt.Sprintf("let %s := { %s with %s := t%d }", mident(m.recv), mident(m.recv), mident(f), m.tmp))
+				} else {
+					f, _ := m.recvField(x.Lhs[0])
+					k := m.kindOf(m.typeOf(x.Lhs[0]))
+					if k != "writer" && k != "logger" && k != "u8" && k != "u16" && k != "int" && k != "bool" {
+						m.refuse(s, "assignment to a field of unsupported type")
+					}
+					v := m.expr(x.Rhs[0], &pre)
+					emit(pre, fmt.Sprintf("let %s := { %s with %s := %s }", mident(m.recv), mident(m.recv), mident(f), v))
+				}
 			case len(x.Lhs) == 1 && len(x.Rhs) == 1 && x.Tok == token.ASSIGN:
 				ie, ok := x.Lhs[0].(*ast.IndexExpr)
 				if !ok {
@@ -467,6 +559,18 @@ func (m *memTr) block(stmts []ast.Stmt, ind string, tail string, inLoop bool, lo
 				id, ok := x.Lhs[0].(*ast.Ident)
 				if !ok {
 					m.refuse(s, "definition target")
+				}
+				if cl, ok := x.Rhs[0].(*ast.CompositeLit); ok && m.kindOf(m.typeOf(cl)) == "slice" {
+					// a fresh byte slice with the listed elements (never written through in the fragment: element assignment on it is refused)
+					var els []string
+					for _, e := range cl.Elts {
+						if _, isKV := e.(*ast.KeyValueExpr); isKV {
+							m.refuse(s, "keyed slice literal")
+						}
+						els = append(els, m.expr(e, &pre))
+					}
+					emit(pre, fmt.Sprintf("let %s : List U8 := [%s]", mident(id.Name), strings.Join(els, ", ")))
+					break
 				}
 				if cl, ok := x.Rhs[0].(*ast.CompositeLit); ok {
 					if m.kindOf(m.typeOf(cl)) != "map" || len(cl.Elts) != 0 {
@@ -588,6 +692,19 @@ func (m *memTr) block(stmts []ast.Stmt, ind string, tail string, inLoop bool, lo
 	return out
 }
 
+// recvField: e is `recv.f` (struct mode) -> f
+func (m *memTr) recvField(e ast.Expr) (string, bool) {
+	se, ok := e.(*ast.SelectorExpr)
+	if !ok || !m.structs {
+		return "", false
+	}
+	id, ok := se.X.(*ast.Ident)
+	if !ok || id.Name != m.recv {
+		return "", false
+	}
+	return se.Sel.Name, true
+}
+
 func isReturn(s ast.Stmt) bool { _, ok := s.(*ast.ReturnStmt); return ok }
 
 func (t *tr) genMemIO() string {
@@ -610,7 +727,7 @@ func (t *tr) genMemIO() string {
 				for _, sp := range x.Specs {
 					ts := sp.(*ast.TypeSpec)
 					ty := t.info.Defs[ts.Name].Type()
-					m := &memTr{t: t}
+					m := &memTr{info: t.info, fset: t.fset}
 					k := m.kindOf(ty)
 					if k != "slice" && k != "map" {
 						panic(refusal("memio.go: type " + ts.Name.Name + " is neither []uint8 nor map[uint16]uint8"))
@@ -633,7 +750,7 @@ func (t *tr) genMemIO() string {
 			if x.Recv == nil || len(x.Recv.List) != 1 || len(x.Recv.List[0].Names) != 1 {
 				panic(refusal("memio.go: function " + x.Name.Name + " is not a method with a named receiver"))
 			}
-			m := &memTr{t: t, created: map[string]bool{}}
+			m := &memTr{info: t.info, fset: t.fset, created: map[string]bool{}}
 			rid := x.Recv.List[0].Names[0]
 			rty := t.info.Defs[rid].Type()
 			if _, isPtr := rty.(*types.Pointer); isPtr {
